@@ -35,6 +35,55 @@ CHECKS = {
         text="Exploration. InplaceInterpreter (execute and execute_limited with an unlimited budget) against the canonical event sequence on generated programs at all four widths.",
         note=TB,
         design="5 C04"),
+    "C06": dict(
+        technique="runtime monitoring: guard-page global allocator (every allocation made during execute flush against PROT_NONE pages, left and right; freed blocks stay inaccessible) + I/O event-log oracle on roaming programs",
+        text=("Exploration. All four back ends run roaming / scanning / register-pressure programs twice in forked children whose global allocator places every "
+              "allocation made during execute flush against an inaccessible page on the right, then on the left, and never reuses freed addresses; a SIGSEGV/SIGBUS "
+              "is attributed to the configuration in progress. The event log must equal the canonical one (cells survive reallocation)."),
+        note=TB + "Accesses that land inside another live allocation are not detected by guard pages (one mapping per allocation makes that unlikely, not impossible).",
+        design="5 C06"),
+    "C07": dict(
+        technique="runtime monitoring: prefix/completion checker over (finished flag, I/O event log) for budget ladders 0..usize::MAX on halting and provably cycling programs",
+        text=("Exploration. execute_limited of every back end with budgets 0,1,2,3,5,10,...,1e5, random, and for canonically halting programs 2^31, 2^62, usize::MAX: "
+              "finished => log equals the canonical sequence; unfinished => log is a prefix; unlimited budgets must finish halting programs; programs whose canonical run "
+              "provably repeats a machine state must never report finished. 'Returns in time bounded by the budget' is restated as: returns under a 3 s watchdog (30 s when re-run alone) for budgets <= 1e5 on divergent programs."),
+        note=TB + "Divergence is proved by exact state recurrence (Brent) in the canonical interpreter; roaming divergence is outside the quantifier. Wall-clock only as watchdog.",
+        design="5 C07"),
+    "C08": dict(
+        category="fault_enumeration",
+        technique="runtime monitoring with fault injection: enumerated failing event positions (refused write Ok(0)/Err, failing read Err, absent input, absent output) checked by a stop-at-fault log checker",
+        text=("Fault enumeration. For every I/O-bearing case and every event index k < 24 (quick) / 64 (thorough, plus sampled later positions) one run per fault kind and back end: "
+              "the log must be the canonical events before k followed by exactly the one refused canonical operation and nothing after; no panic, crash or Err; the call returns. "
+              "End of input is data (reads 0). Absent input stops at the first request; an absent sink accepts everything."),
+        note=TB + "The LLVM back end (named in the anchors) cannot be built here (needs LLVM 17) and is not covered.",
+        design="5 C08"),
+    "C09": dict(
+        technique="runtime monitoring: map-model shadow of hpbf::runtime::Memory over random call histories, under guard-page allocation (both placements) and under Miri",
+        text=("Exploration. Random histories of mov/read/write/make_accessible/check/check_ptr/current_ptr/set_current_ptr against a HashMap model; reads-never-allocate is "
+              "observed through the allocator's counter; after every growth all model cells, the logical pointer and all promised ranges are re-checked. Native runs use the guard-page allocator in both placements; a reduced workload runs under Miri."),
+        note="Trusted base: the HashMap model, the allocator counter, Miri. Writes/ranges are kept within 2^17 cells of touched territory.",
+        design="5 C09"),
+    "C10": dict(
+        technique="runtime monitoring: execute_unsafe on a context pre-grown to exactly [lo-len, hi+len] under the guard-page allocator (both placements) + I/O event-log oracle",
+        text=("Exploration. For programs whose canonical pointer excursion is [lo,hi], execute_unsafe of the bytecode interpreter and the baseline JIT (levels 0..3) on a tape "
+              "pre-grown with make_accessible(lo-len, hi+len+1); the guard allocator makes the tape exactly that region so the first byte outside faults; the log must equal the canonical one."),
+        note=TB,
+        design="5 C10"),
+    "C14": dict(
+        technique="runtime monitoring: postcondition assertions from the definitions over exhaustive (8 bit; 16 bit in thorough) and structured/random operand sets, plus Miri",
+        text="Exploration, exhaustive at 8 bits (all (n,d) and (base,exp) pairs) and at 16 bits in the thorough tier (all 2^32 (n,d) pairs); every (tz(n),tz(d)) combination plus boundary and random operands at 32/64 bits.",
+        note="Trusted base: u128 reference arithmetic in the harness.",
+        design="5 C14"),
+    "C15": dict(
+        technique="runtime monitoring: value-level oracle on random expression trees built through the public Expr API, evaluated under assignments chosen to hit the half-modulus logic; Miri on a reduced workload",
+        text="Exploration. Sum, product, negation, halving, normalisation, substitution and every structural decomposition (inc_of, prod_inc_of, const_inc_of, prod_of, constant, constant_part, identity, split_along) are compared with concrete arithmetic at all four widths.",
+        note="Equality is checked under 8 sampled assignments per expression, not symbolically.",
+        design="5 C15"),
+    "C18": dict(
+        technique="runtime monitoring: Vec model + drop-tracking elements (exactly-once drop table audited after every operation) over random operation histories; Miri on a reduced workload",
+        text="Exploration. Random histories over a pool of vectors for inline capacities 1, 2 (those used) and 4, with drop-tracked boxed elements and plain elements; slice view, comparisons and hash against a Vec model; live-element table must equal the number of held elements after every operation and be empty at the end.",
+        note="Trusted base: Vec as the model; hook H1 exposes the private type. UB that does not change contents is only visible to the Miri stage.",
+        design="5 C18"),
 }
 
 NOT_YET = {
